@@ -11,6 +11,13 @@ pub struct Layers { pub bits: u8 }
 impl Layers {
     pub const ENCRYPT: Layers = Layers { bits: 1 };
     pub const COMPRESS: Layers = Layers { bits: 2 };
+    pub fn insert(&mut self, other: Layers)
+        ensures final(self).bits == old(self).bits | other.bits, (final(self).bits & other.bits) == other.bits,
+    {
+        let (a, b) = (self.bits, other.bits);
+        proof { assert(((a | b) & b) == b) by(bit_vector); }
+        self.bits = a | b;
+    }
     pub const fn contains(&self, other: Layers) -> (r: bool) ensures r == ((self.bits & other.bits) == other.bits) { (self.bits & other.bits) == other.bits }
 }
 pub open spec fn has_encrypt(l: Layers) -> bool { (l.bits & Layers::ENCRYPT.bits) == Layers::ENCRYPT.bits }
